@@ -25,6 +25,7 @@ EXPLANATION = (
     "ordered comparison evaluated true), error paths report the matching variant with the offending value. R3/R4: sibling constructors return "
     "the same error variants; the ledger's site sets of functions compiled in both configurations agree. Not decided: allocation failure, "
     "i64 cost overflow (A-cost), termination, panics raised by user code (C18)."
+    " R5: no builder method replaces a field it was not asked to set, so finalize validates what the caller configured (engine of C01.R8)."
 )
 TRUSTED_BASE = ["MIR at -Coverflow-checks=on", "A-mem: sizes fit in memory (<= 2^48)", "A-count: unit-step counters do not wrap", "A-cost: cost sums fit in i64",
                 "A-clock: the system clock is not before the Unix epoch (std sketch seeding)", "rules/pl_residual.json (justified residual sites)"]
